@@ -85,7 +85,7 @@ def _strip_pauses(td):
 def generate(r, tier):
     if r.random() < 0.12:
         return _gen_placement(r)
-    aworld = gen.gen_world(r, True, nfuncs=(1, 3), with_class=0.6, forms=True, async_methods=True, mixed=False, subclass=0.35)
+    aworld = gen.gen_world(r, True, nfuncs=(1, 3), with_class=0.6, forms=True, async_methods=True, mixed=False, subclass=0.35, setattr_invs=True)
     units = gen.units_of(aworld)
     profile = {
         "p_falsy": r.choice([0.3, 0.5, 0.7]),
